@@ -313,9 +313,10 @@ MUTATIONS = [
     ("cc_pot_const", "canopy_cover, potential canopy: cc_development(CC0, 0.98 * CCx, ...) -> 0.97",
      lambda r: edit(r, CCV, "0.98 * Crop.CCx", "0.97 * Crop.CCx"),
      "proof breaks", "canopy_cover_src_ok"),
-    # NOT a row: `if CCsen > Crop.CCx:` -> `>=` (senescence block).  The proof does not go through either, but coqc needs
-    # more than 20 minutes to say so (the block has the most paths); with the 40-minute limit of coq_check such a
-    # mutation is reported as INFRASTRUCTURE: timeout, never as `still proves`.
+    ("cc_cmp", "canopy_cover, early senescence: `if CCsen > Crop.CCx:` -> `>=` (the case analysis of the block outgrows its "
+               "Timeout: coqc stops with `Timeout!` inside the proof after about 4 minutes)",
+     lambda r: edit(r, CCV, "if CCsen > Crop.CCx:", "if CCsen >= Crop.CCx:"),
+     "proof breaks", "canopy_cover_src_ok"),
     ("cc_unknown_class", "canopy_cover: `water_stress_coef = Ksw()` -> an unknown constructor",
      lambda r: edit(r, CCV, "        water_stress_coef = Ksw()\n        water_stress_coef.exp,", "        water_stress_coef = dict()\n        water_stress_coef.exp,"),
      "translator error", r"aquacrop/solution/canopy_cover\.py:\d+: unsupported "),
